@@ -18,6 +18,9 @@ Oracle: a reference decision procedure over the same stimulus prefix (section 2 
   foreign  : the same schedule without the foreign service's events gives the same outcome at the same
              own stimulus (metamorphic), and create() never fires AT a foreign event;
   once     : no second completion attempt (AlreadyCalledError in the listener) is ever logged;
+  others   : another HS_DESC listener registered BEFORE the wait on the same real TorControlProtocol - an application's
+             one-shot listener removing itself during dispatch, or the wait of a second service created concurrently
+             (both services judged, each on its own view) - never makes the wait miss an event: same clauses;
   cleanup  : once create() fired - success or failure, including a rejected creating command - no HS_DESC
              listener registered by this wait remains and Tor's last SETEVENTS does not list HS_DESC.
 """
@@ -48,7 +51,8 @@ LEVEL_NOTE = ("Trusted: vf.faketor.oniontor (reference Tor: emits HS_DESC only w
 RULE = ("a case = service kind (ephemeral v2/v3, basic-auth ephemeral with Tor-made or caller key, filesystem v2/v3) x waiting mode x "
         "a stimulus sequence: own events (UPLOAD d, then optionally UPLOADED d or FAILED d, per directory), foreign-service events on "
         "shared or other directories (same causality), optional own CREATED noise, and exactly one 'creating reply released' marker at "
-        "any position. Distinct = hash of (kind, mode, stimuli). Non-trivial = at least one own event was delivered to the listener "
+        "any position; plus own schedules with a one-shot application listener unsubscribing during dispatch at every event position, and "
+        "pairs of concurrently created real services (history of each over shared directories x every interleaving x modes of each). Distinct = hash of (kind, mode, stimuli). Non-trivial = at least one own event was delivered to the listener "
         "and the reference was compared after every stimulus.")
 ASSUMPTIONS = [
     "per directory and service: UPLOAD precedes its UPLOADED/FAILED; one outcome per directory per history, but a report may be REPEATED "
@@ -76,6 +80,14 @@ ASSUMPTIONS = [
     "failing while a post-reply attempt has not failed, is a violation under both",
     "another HS_DESC listener on the same connection (an application's) is registered in the tagged class other-HS_DESC-listener-registered; "
     "there HS_DESC legitimately stays subscribed and only the wait's own listener must be gone",
+    "tagged class +it-unsubscribes-during-dispatch: the application's listener was registered BEFORE the service and removes itself from "
+    "inside its callback at its k-th HS_DESC event (a one-shot listener; every k); the wait must still be handed that event, and once "
+    "the application's listener is gone the wait's completion must unsubscribe HS_DESC at Tor",
+    "tagged class +second-service-created-concurrently: the second service is REAL - two EphemeralOnionService.create() calls on one "
+    "TorConfig/TorControlProtocol, two real waits/listeners; each service is judged on its own view (the other one's events are its "
+    "foreign events, metamorphic partner = the same own schedule created alone); txtorcon sends one command at a time, so Tor sees "
+    "the second ADD_ONION only after answering the first (first reply precedes every event of the second service); while the other "
+    "wait is still active HS_DESC legitimately stays subscribed",
     "two readings of 'every attempted upload failed' / 'all resolved' (first prefix vs. end of history) are both accepted: "
     "safety asks for SOME prefix up to the firing point, liveness only when the condition holds at the final prefix",
     "progress callback values are recorded and counted (monotonicity, final 100) but not judged: the statement does not mention them",
@@ -97,6 +109,8 @@ FLOORS = {
               "cases_with_colliding_own_hsdir_nicknames": 400, "cases_started_in_unsubscribe_window": 60,
               "cases_with_own_retry": 100, "cases_with_unknown_address_events": 100,
               "cases_with_own_client_side_events": 100,
+              "app_listener_unsubscribed_during_dispatch": 100, "concurrent_service_views_judged": 100,
+              "first_wait_unsubscribed_while_second_still_waiting": 20,
               "reach:txtorcon.onion:_await_descriptor_upload": 1200,
               "reach:txtorcon.torcontrolprotocol:TorControlProtocol.remove_event_listener": 500},
     "thorough": {"evaluations": 60000, "prefix_checks": 400000, "events_delivered": 250000, "outcomes_compared": 40000,
@@ -105,6 +119,8 @@ FLOORS = {
                  "cases_with_colliding_own_hsdir_nicknames": 20000, "cases_started_in_unsubscribe_window": 1000,
                  "cases_with_own_retry": 1000, "cases_with_unknown_address_events": 500,
                  "cases_with_own_client_side_events": 500,
+                 "app_listener_unsubscribed_during_dispatch": 1000, "concurrent_service_views_judged": 4000,
+                 "first_wait_unsubscribed_while_second_still_waiting": 500,
                  "reach:txtorcon.onion:_await_descriptor_upload": 60000},
 }
 
@@ -149,6 +165,8 @@ ACT = {"U": "UPLOAD", "S": "UPLOADED", "F": "FAILED", "Q": "REQUESTED"}
 # not the own service: "f" = a second onion service, "x" = events whose address field is the token UNKNOWN
 # (legal per control-spec, e.g. a descriptor fetched by its id that failed / was requested)
 FOREIGN = ("f", "x")
+# "r" = the creating reply of the OTHER, concurrently created service (view of one service of a concurrent pair)
+NOT_OWN = FOREIGN + ("r",)
 # REASON values that only a descriptor FETCH can have (control-spec 4.1.25); UPLOAD_REJECTED is upload-only,
 # UNEXPECTED may be either
 FETCH_ONLY_REASONS = ("NOT_FOUND", "QUERY_REJECTED", "QUERY_NO_HSDIR", "BAD_DESC", "QUERY_RATE_LIMITED")
@@ -537,6 +555,8 @@ def describe(stimuli, p):
     s = stimuli[p]
     if s[0] == "R":
         return "creating-reply"
+    if s[0] == "r":
+        return "other-service-creating-reply"
     if s[0] == "n":
         return "own-" + ("fetch-FAILED" if s[1] == "FETCHFAILED" else s[1])
     if s[0] == "o":
@@ -574,7 +594,8 @@ def signature(stimuli):
 
 class Run(object):
     __slots__ = ("fired_at", "ok", "err", "cbs", "left", "hs_subscribed", "last_setevents", "log", "twice_at",
-                 "progress", "sent", "suppressed", "harness", "value_ok", "delivered_own", "reasons", "name_style")
+                 "progress", "sent", "suppressed", "harness", "value_ok", "delivered_own", "reasons", "name_style",
+                 "app_gone", "other_active", "first_gone_while_waiting")
 
 
 _ROOT = []
@@ -615,6 +636,7 @@ def execute(case):
     r.left = []
     r.hs_subscribed = False
     r.last_setevents = None
+    r.app_gone = r.other_active = r.first_gone_while_waiting = False
     tor = OT.OnionTor()
     proto, tor, link = connected_protocol(tor)
     cfg = TorConfig(proto)
@@ -633,7 +655,21 @@ def execute(case):
     if case.get("app_listener"):
         # an application's own HS_DESC listener on the same connection: HS_DESC stays subscribed, and
         # removing the wait's listener needs no SETEVENTS round-trip
-        proto.add_event_listener("HS_DESC", lambda text: None)
+        # variant app_oneshot_at=k: a ONE-SHOT application listener (registered BEFORE the service's wait) that
+        # removes itself from inside its own callback when it is handed its k-th HS_DESC event: the wait's
+        # listener, registered after it, must still be handed that very event
+        at = case.get("app_oneshot_at")
+        if at:
+            seen_by_app = [0]
+
+            def app_listener(text):
+                seen_by_app[0] += 1
+                if seen_by_app[0] == at:
+                    r.app_gone = True
+                    proto.remove_event_listener("HS_DESC", app_listener)
+        else:
+            app_listener = lambda text: None
+        proto.add_event_listener("HS_DESC", app_listener)
         link.pump()
     orig_add = proto.add_event_listener
 
@@ -807,14 +843,14 @@ _PROJ = {}
 
 def projected(case):
     """the same case without the foreign service's events (cached)"""
-    st = [s for s in case["stimuli"] if s[0] not in FOREIGN]
+    st = [s for s in case["stimuli"] if s[0] not in NOT_OWN]
     # the own events keep the REASON= fields they have in the original schedule
     shift = case.get("reason_shift")
     if shift is None:
         shift = zlib.crc32(signature(case["stimuli"]).encode("ascii")) % 3
     nstyle = name_style(case)
     key = (case["kind"], case["await_all"], signature(st), tuple(case.get("dirnames") or ()), bool(case.get("app_listener")),
-           shift, nstyle, case.get("prelude"))
+           shift, nstyle, case.get("prelude"), case.get("app_oneshot_at"))
     res = _PROJ.get(key)
     if res is None:
         c2 = dict(case)
@@ -826,6 +862,204 @@ def projected(case):
         if len(_PROJ) > 50000:
             _PROJ.clear()
     return st, res
+
+
+# ---------------------------------------------------------------------------
+# a REAL second service: two creations running concurrently on one connection
+
+def perspective(stimuli, me):
+    """the pair's schedule as seen by service `me` ("A" = created, and its wait registered, first; "B" = second):
+    own events "o", the other service's events "f", own creating reply ["R"], the other one's ["r", "R", 0]"""
+    out = []
+    for s in stimuli:
+        if s[0] == "R" + me:
+            out.append(["R"])
+        elif s[0] in ("RA", "RB"):
+            out.append(["r", "R", 0])
+        elif s[0] == me:
+            out.append(["o", s[1], s[2]])
+        else:
+            out.append(["f", s[1], s[2]])
+    return out
+
+
+def pair_view(case, me):
+    crc = zlib.crc32(signature(case["stimuli"]).encode("ascii"))
+    return {"kind": case["kind_" + me.lower()], "await_all": case["await_all_" + me.lower()],
+            "stimuli": perspective(case["stimuli"], me), "concurrent": "first" if me == "A" else "second",
+            "reason_shift": crc % 3, "name_style": (crc // 3) % 4}
+
+
+def _new_run():
+    r = Run()
+    r.fired_at = None
+    r.ok = r.err = None
+    r.cbs = []
+    r.log = []
+    r.twice_at = None
+    r.progress = []
+    r.sent = r.suppressed = r.delivered_own = 0
+    r.harness = None
+    r.value_ok = True
+    r.reasons = set()
+    r.name_style = None
+    r.left = []
+    r.hs_subscribed = False
+    r.last_setevents = None
+    r.app_gone = r.other_active = r.first_gone_while_waiting = False
+    return r
+
+
+def execute_pair(case):
+    """two EphemeralOnionService.create() calls on ONE TorConfig / TorControlProtocol, both waits (real listeners)
+    active at the same time.  txtorcon sends one command at a time, so Tor sees B's ADD_ONION only after it has
+    answered A's: stimulus RA (release A's reply) precedes every B event and RB."""
+    from txtorcon import TorConfig
+    from txtorcon.onion import EphemeralOnionService
+    stimuli = case["stimuli"]
+    views = {m: pair_view(case, m) for m in "AB"}
+    runs = {m: _new_run() for m in "AB"}
+
+    def problem(text):
+        for m in "AB":
+            runs[m].harness = text
+        return runs, views
+    tor = OT.OnionTor()
+    proto, tor, link = connected_protocol(tor)
+    cfg = TorConfig(proto)
+    link.pump()
+    if not cfg.post_bootstrap.called:
+        return problem("config bootstrap stalled")
+    cbs = []
+    orig_add = proto.add_event_listener
+
+    def add(evt, cb):
+        if evt == "HS_DESC":
+            cbs.append(cb)
+        return orig_add(evt, cb)
+    proto.add_event_listener = add
+    aud = audit.Auditor(wire.LClock())
+    logs = audit.LogCapture()
+    logs.start()
+    try:
+        tor.hold_next("ADD_ONION")
+        tor.hold_next("ADD_ONION")
+        reactor = OT.PortReactor()
+        ds = {}
+        for m, port in (("A", "80 127.0.0.1:8080"), ("B", "81 127.0.0.1:8081")):
+            ds[m] = EphemeralOnionService.create(
+                reactor, cfg, [port], version=int(views[m]["kind"][-1]), await_all_uploads=views[m]["await_all"],
+                progress=(lambda p, tag, d, _r=runs[m]: _r.progress.append(p)))
+            if len(cbs) != (1 if m == "A" else 2):
+                return problem("expected one HS_DESC listener per create() call, registered at once: %d after %s" % (len(cbs), m))
+            runs[m].cbs = [cbs[-1]]
+        o = {m: aud.watch(ds[m], "create-" + m) for m in "AB"}
+        link.pump()
+        if len(tor.held) != 1 or len(tor.onions) != 1:
+            return problem("first creating command not received/held: %r" % (tor.lines[-3:],))
+        addr = {"A": list(tor.onions.values())[-1].service_id, "B": None}
+        style = views["A"]["name_style"]
+        for m in "AB":
+            runs[m].name_style = style
+        for i, s in enumerate(stimuli):
+            if s[0] in ("RA", "RB"):
+                if len(tor.held) != 1:
+                    return problem("nothing held at %s" % (s[0],))
+                tor.release()
+                link.pump()
+                if s[0] == "RA":
+                    if len(tor.held) != 1 or len(tor.onions) != 2:
+                        return problem("second creating command not received/held after the first reply: %r" % (tor.lines[-3:],))
+                    addr["B"] = list(tor.onions.values())[-1].service_id
+            else:
+                m = s[0]
+                if addr[m] is None:
+                    return problem("event for a service Tor does not know yet")
+                reason = fail_reason(views[m], s[2]) if s[1] == "F" else None
+                sent = tor.hs_desc(ACT[s[1]], addr[m], hsdir_longname(style, s[2]),
+                                   descid=AO.descriptor_id(addr[m], s[2]) if s[1] != "S" else None, reason=reason)
+                if s[1] == "F":
+                    runs[m].reasons.add(reason or "none")
+                for k in "AB":
+                    if sent:
+                        runs[k].sent += 1
+                    else:
+                        runs[k].suppressed += 1
+                if sent:
+                    runs[m].delivered_own += 1
+                link.pump()
+            for e in logs.take():
+                for k in "AB":
+                    runs[k].log.append((i, e[0], e[1][:160]))
+                    if e[0] == "AlreadyCalledError" and runs[k].twice_at is None:
+                        runs[k].twice_at = i
+            for k in "AB":
+                if runs[k].fired_at is None and o[k].fired:
+                    runs[k].fired_at = i
+            if o["A"].fired and not o["B"].fired:
+                runs["B"].first_gone_while_waiting = True
+        evt = proto.valid_events.get("HS_DESC")
+        cur = list(evt.callbacks) if evt is not None else []
+        for k, other in (("A", "B"), ("B", "A")):
+            r = runs[k]
+            if o[k].fired:
+                r.ok = bool(o[k].ok)
+                if not o[k].ok:
+                    r.err = "%s: %s" % (type(o[k].value).__name__, str(o[k].value)[:120])
+                else:
+                    r.value_ok = getattr(o[k].value, "hostname", None) == (addr[k] or "?") + ".onion"
+            if o[k].fired > 1:
+                r.twice_at = len(stimuli)
+            r.left = [c for c in r.cbs if c in cur]
+            r.other_active = not o[other].fired
+            r.hs_subscribed = "HS_DESC" in tor.subscribed
+            r.last_setevents = list(tor.setevents_log[-1]) if tor.setevents_log else None
+            if link.exceptions:
+                r.harness = "exception escaped dataReceived: %r" % (link.exceptions[:2],)
+        return runs, views
+    finally:
+        logs.stop()
+
+
+def run_pair(case, rec):
+    runs, views = execute_pair(case)
+    rec.count("concurrent_pair_cases")
+    bad = []
+    for m in "AB":
+        bad += judge(views[m], runs[m], rec, case)
+    return bad
+
+
+def concurrent_cases(na_list, nb_list):
+    """service A over directories 0..na-1, service B over 0..nb-1 (so they share directories), every causal history
+    of each, every interleaving; A's reply first (Tor sees B's command only then), B's reply right after it or just
+    before B's first event"""
+    for na in na_list:
+        for ha in histories(list(range(na)), True):
+            a = [["A", x, d] for (x, d) in ha]
+            for nb in nb_list:
+                for hb in histories(list(range(nb)), False):
+                    b = [["B", x, d] for (x, d) in hb]
+                    for mg in merges(a, b):
+                        yield [["RA", "R", 0], ["RB", "R", 0]] + mg
+                        k = next(i for i, t in enumerate(mg) if t[0] == "B")
+                        if k > 0:
+                            yield [["RA", "R", 0]] + mg[:k] + [["RB", "R", 0]] + mg[k:]
+
+
+def oneshot_listener_cases(maxn):
+    """own schedules x the position (1-based count of HS_DESC events) at which an application's one-shot listener,
+    registered before the service, removes itself from inside its callback"""
+    for st in own_cases(maxn):
+        for at in range(1, sum(1 for t in st if t[0] != "R") + 1):
+            yield st, at
+    # one directory more with the reply first (the schedules on which completion is demanded), every 8th
+    i = 0
+    for h in histories(list(range(maxn + 1)), True):
+        for at in range(1, len(h) + 1):
+            i += 1
+            if i % 8 == 0:
+                yield [["R"]] + [["o", a, d] for (a, d) in h], at
 
 
 FAIL_CAUSES = {"rejected": "creating-command-rejected", "badkey": "key-rejected-before-sending",
@@ -840,10 +1074,17 @@ def failure_cause(case):
 
 
 def run_case(case, rec):
+    if case.get("concurrent"):
+        return run_pair(case, rec)
+    return judge(case, execute(case), rec, case)
+
+
+def judge(case, run, rec, stored):
+    """case: what is judged (for a concurrent pair: the view of ONE of the two services); stored: the case
+    written with a violation (what replay() needs)"""
     stimuli = case["stimuli"]
     await_all = bool(case["await_all"])
     special = case.get("special")
-    run = execute(case)
     bad = []
 
     def V(clause, what, detail):
@@ -852,16 +1093,20 @@ def run_case(case, rec):
             what += "+own-event-before-creating-reply+early-dir-results=" + early_results(stimuli, run.fired_at)
         if case.get("app_listener"):
             what += "+other-HS_DESC-listener-registered"
+            if case.get("app_oneshot_at"):
+                what += "+it-unsubscribes-during-dispatch"
+        if case.get("concurrent"):
+            what += "+second-service-created-concurrently+this-wait-registered-" + case["concurrent"]
         if case.get("prelude"):
             what += "+" + case["prelude"]
         if not special and not has_retry(stimuli) and not any(t[0] == "n" and t[1] != "CREATED" for t in stimuli) \
                 and name_style(case) in (1, 2) \
                 and len({t[2] for t in stimuli if t[0] == "o"}) > 1:
             what += "+own-hsdir-nicknames-collide"
-        rec.violation(clause, what if special else input_class(case, what), detail, case)
+        rec.violation(clause, what if special else input_class(case, what), detail, stored)
 
     if run.harness:
-        rec.violation("harness-problem", case["kind"], {"what": run.harness}, case)
+        rec.violation("harness-problem", case["kind"], {"what": run.harness}, stored)
         rec.case(case, nontrivial=False)
         return bad
     ref = reference(stimuli, await_all)
@@ -925,7 +1170,7 @@ def run_case(case, rec):
                 # index of the p-th stimulus in the projection
                 mapped = None
                 if p is not None and stimuli[p][0] not in FOREIGN:
-                    mapped = sum(1 for s in stimuli[:p + 1] if s[0] not in FOREIGN) - 1
+                    mapped = sum(1 for s in stimuli[:p + 1] if s[0] not in NOT_OWN) - 1
                 same = (p is None and p2 is None) or (p is not None and p2 is not None and mapped == p2
                                                       and bool(run.ok) == bool(ok2))
                 if not same:
@@ -950,8 +1195,10 @@ def run_case(case, rec):
         if run.left:
             V("listener-remains-after-%s" % ("success" if run.ok else "failure"), cause,
               dict(detail, listeners_left=len(run.left)))
-        elif case.get("app_listener"):
+        elif case.get("app_listener") and not run.app_gone:
             pass            # HS_DESC legitimately stays subscribed for the application's listener
+        elif run.other_active:
+            pass            # ... or for the wait of the other service of a concurrent pair, which is still waiting
         elif run.hs_subscribed or (run.last_setevents is not None and "HS_DESC" in run.last_setevents):
             V("setevents-not-updated-after-%s" % ("success" if run.ok else "failure"), cause,
               dict(detail, last_setevents=run.last_setevents))
@@ -975,6 +1222,14 @@ def run_case(case, rec):
             rec.count("cases_with_colliding_own_hsdir_nicknames")
     if case.get("prelude"):
         rec.count("cases_started_in_unsubscribe_window")
+    if case.get("app_oneshot_at"):
+        rec.count("cases_with_one_shot_app_listener")
+        if run.app_gone:
+            rec.count("app_listener_unsubscribed_during_dispatch")
+    if case.get("concurrent"):
+        rec.count("concurrent_service_views_judged")
+        if case["concurrent"] == "second" and run.first_gone_while_waiting:
+            rec.count("first_wait_unsubscribed_while_second_still_waiting")
     for rs in run.reasons:
         rec.seen("failed_reasons_delivered", rs)
     if has_retry(stimuli):
@@ -987,7 +1242,8 @@ def run_case(case, rec):
         rec.count("cases_with_unknown_address_events")
     rec.seen("outcomes", "%s/%s/%s" % (case["kind"], mode_name(case), outcome))
     rec.seen("schedules", signature(stimuli))
-    rec.case(case, nontrivial=run.delivered_own > 0 or special is not None)
+    rec.case({"pair": stored, "judged": case["concurrent"]} if case.get("concurrent") else case,
+             nontrivial=run.delivered_own > 0 or special is not None)
     return bad
 
 
@@ -1074,6 +1330,18 @@ def shard_cases(spec):
             for aw in (False, True):
                 for kind in spec.get("kinds", KINDS):
                     yield {"kind": kind, "await_all": aw, "stimuli": st, "app_listener": True}
+    elif mode == "oneshot-applistener":
+        for st, at in oneshot_listener_cases(spec["maxn"]):
+            for aw in (False, True):
+                for kind in spec.get("kinds", ("eph3", "fs3")):
+                    yield {"kind": kind, "await_all": aw, "stimuli": st, "app_listener": True, "app_oneshot_at": at}
+    elif mode == "concurrent":
+        kinds = spec.get("kinds", ("eph3", "eph2"))
+        for i, st in enumerate(concurrent_cases(spec["na"], spec["nb"])):
+            for awa in (False, True):
+                for awb in (False, True):
+                    yield {"concurrent": True, "kind_a": kinds[i % len(kinds)], "kind_b": kinds[(i // len(kinds)) % len(kinds)],
+                           "await_all_a": awa, "await_all_b": awb, "stimuli": st}
     elif mode == "special":
         for c in special_cases():
             yield c
@@ -1162,6 +1430,11 @@ def plan(tier, seed):
                       "name": "own orderings over 1-2 directories x reply position x mode, creation started while an unsubscribing SETEVENTS is unanswered"})
         specs.append({"mode": "applistener", "maxn": 2, "kinds": ["fs3", "fs2", "eph3", "auth-key"],
                       "name": "own orderings over 1-2 directories x reply position x mode with another HS_DESC listener registered"})
+        for i in range(2):
+            specs.append({"mode": "oneshot-applistener", "maxn": 2, "part": i, "parts": 2,
+                      "name": "own orderings over 1-2 directories x reply position x mode x a one-shot application HS_DESC listener (registered first) unsubscribing during the dispatch of every event position"})
+        specs.append({"mode": "concurrent", "na": [1, 2], "nb": [1, 2], "sample_every": 300,
+                      "name": "sample of two services created concurrently on one connection (two real waits): histories over 1-2 shared directories each x every interleaving x both modes each x second reply first / just before its events"})
         specs.append({"mode": "random", "n": 900})
     else:
         for i in range(4):
@@ -1204,6 +1477,13 @@ def plan(tier, seed):
         for i in range(2):
             specs.append({"mode": "applistener", "maxn": 3, "part": i, "parts": 2,
                           "name": "own orderings over 1-3 directories x reply position x mode x 6 kinds with another HS_DESC listener registered"})
+        for i in range(4):
+            specs.append({"mode": "oneshot-applistener", "maxn": 3, "kinds": ["eph3", "fs3", "auth-key"], "timeout_s": 3000,
+                      "part": i, "parts": 4,
+                      "name": "own orderings over 1-3 directories x reply position x mode x 3 kinds x a one-shot application HS_DESC listener (registered first) unsubscribing during the dispatch of every event position"})
+        for i in range(4):
+            specs.append({"mode": "concurrent", "na": [1, 2], "nb": [1, 2], "part": i, "parts": 4, "sample_every": 8, "timeout_s": 3000,
+                          "name": "sample of two services created concurrently on one connection (two real waits): histories over 1-2 shared directories each x every interleaving x both modes each x second reply first / just before its events"})
         for i in range(12):
             specs.append({"mode": "random", "n": 5000, "timeout_s": 3000})
     return specs
